@@ -13,7 +13,11 @@ heading = KaniUnit("c03_heading", CORE,
                H("c03_end_heading_default", "complete", "end_heading falls back to the arrival heading; new() stores both", timeout=120)])
 turn = KaniUnit("c03_turn", CORE, modules=[dict(file=TD + "turn.rs", src="c03_turn.rs")],
     harnesses=[H("c03_turn_from_angle", "complete", "Turn::from_angle for every i16: the eight classes are the documented intervals, Err outside -180..=180", timeout=120)])
-UNITS = [heading, turn]
+smw = KaniUnit("c03_smw", CORE, modules=[dict(file=CORE + "/src/model/state/state_model.rs", src="c03_statemodel_wit.rs")], harnesses=[])
+smw.native_witnesses = ["c03_wit_distance_accumulates_the_sum_across_units", "c03_wit_energy_and_time_accumulate_the_sum_across_units"]
+sm = VerusUnit("c03_statemodel", "c03_statemodel", rlimit=60, paired_kani=(smw, []))
+cm = VerusUnit("c07_costmodel", "c07_costmodel", rlimit=30)
+UNITS = [heading, turn, sm, cm, smw]
 EXPLANATION = "turn classification kernels (complete over i16), per-edge state/cost split (Verus, see C07 units), accumulation lemma"
 NOT_DECIDED = "the response summary produced through serde_json in the output plugin"
 ASSUMPTIONS = ["alloc::fmt::format stubbed on error paths"]
